@@ -14,6 +14,7 @@ package main
 
 import (
 	"context"
+	"encoding/binary"
 	"encoding/json"
 	"fmt"
 	"sort"
@@ -21,6 +22,7 @@ import (
 	"sync"
 	"time"
 
+	"github.com/pion/interceptor"
 	"github.com/pion/logging"
 	"github.com/pion/rtp"
 	"github.com/pion/sdp/v3"
@@ -51,6 +53,13 @@ var c23VideoOrder = []string{"vp8", "h264", "av1", "vp9"}
 // set. ptShift moves every payload type (distinct tables on the two sides make
 // "the negotiated payload type" differ from the sender's own).
 func c23Engine(rtx, fec bool, ptShift int) *webrtc.MediaEngine {
+	return c23EngineSwap(rtx, fec, ptShift, false)
+}
+
+// c23EngineSwap: with swap, VP8 and H264 exchange their payload types, so that
+// a payload type of the other side's table names a different codec in this
+// side's registered table (the negotiated table must win).
+func c23EngineSwap(rtx, fec bool, ptShift int, swap bool) *webrtc.MediaEngine {
 	me := &webrtc.MediaEngine{}
 	must := func(err error) {
 		if err != nil {
@@ -66,6 +75,11 @@ func c23Engine(rtx, fec bool, ptShift int) *webrtc.MediaEngine {
 		cp := d.Cap
 		cp.RTCPFeedback = fb
 		pt := int(d.PT) + ptShift
+		if swap && n == "vp8" {
+			pt = int(c23Codecs["h264"].PT) + ptShift
+		} else if swap && n == "h264" {
+			pt = int(c23Codecs["vp8"].PT) + ptShift
+		}
 		must(me.RegisterCodec(webrtc.RTPCodecParameters{RTPCodecCapability: cp, PayloadType: webrtc.PayloadType(pt)}, webrtc.RTPCodecTypeVideo))
 		if rtx {
 			must(me.RegisterCodec(webrtc.RTPCodecParameters{
@@ -503,8 +517,55 @@ type c23Media struct {
 	Data          bool        `json:"data"`
 	AnswererSends bool        `json:"answerer_sends"`
 	PTShift       int         `json:"pt_shift"` // the answerer's own payload-type table is shifted by this
+	PTSwap        bool        `json:"pt_swap"`  // the answerer's table has VP8 and H264 payload types exchanged
 	Shim          *e2eShim    `json:"shim,omitempty"`
 	Nonce         int         `json:"nonce"`
+}
+
+// c23Tap is a receive-side interceptor that notes (SSRC, payload type) of
+// every RTP packet handed to a bound remote stream, whether or not OnTrack
+// ever fires: it lets a failure name its cause (wrong payload type vs. wrong
+// SSRC vs. nothing arrived).
+type c23Tap struct {
+	interceptor.NoOp
+	mu   sync.Mutex
+	seen map[uint32]map[uint8]int
+}
+
+func (t *c23Tap) NewInterceptor(string) (interceptor.Interceptor, error) { return t, nil }
+func (t *c23Tap) BindRemoteStream(_ *interceptor.StreamInfo, reader interceptor.RTPReader) interceptor.RTPReader {
+	return interceptor.RTPReaderFunc(func(b []byte, a interceptor.Attributes) (int, interceptor.Attributes, error) {
+		n, a, err := reader.Read(b, a)
+		if err == nil && n >= 12 {
+			ssrc := binary.BigEndian.Uint32(b[8:12])
+			t.mu.Lock()
+			if t.seen[ssrc] == nil {
+				t.seen[ssrc] = map[uint8]int{}
+			}
+			t.seen[ssrc][b[1]&0x7f]++
+			t.mu.Unlock()
+		}
+		return n, a, err
+	})
+}
+
+// why no packet was read from the remote track of ssrc, as far as the tap knows
+func (t *c23Tap) diagnose(ssrc uint32, wantPT int) (sig, what string) {
+	t.mu.Lock()
+	defer t.mu.Unlock()
+	if pts := t.seen[ssrc]; len(pts) > 0 {
+		for pt := range pts {
+			if int(pt) != wantPT {
+				return "packet-payload-type-not-negotiated",
+					fmt.Sprintf("packets with SSRC %d arrive with payload type %d, the answer negotiates %d; the remote track never starts", ssrc, pt, wantPT)
+			}
+		}
+		return "remote-track-never-delivers", fmt.Sprintf("packets with SSRC %d and payload type %d arrive but OnTrack/ReadRTP deliver none", ssrc, wantPT)
+	}
+	for other := range t.seen {
+		return "packet-ssrc-differs-from-announced", fmt.Sprintf("packets arrive with SSRC %d, the description announces %d", other, ssrc)
+	}
+	return "no-packet-reached-the-announced-ssrc", fmt.Sprintf("nothing arrived for SSRC %d", ssrc)
 }
 
 type c23Sent struct {
@@ -600,9 +661,19 @@ func c23CodecList(cs []webrtc.RTPCodecParameters) string {
 func c23MediaRun(in c23Media) (V, Verdict) {
 	ctx, cancel := context.WithTimeout(context.Background(), 40*time.Second)
 	defer cancel()
-	meO, meA := c23Engine(in.RTX, in.FEC, 0), c23Engine(in.RTX, in.FEC, in.PTShift)
-	apiO, closeO := e2eAPI(e2eOpts{Media: meO, Shim: in.Shim}, 0)
-	apiA, closeA := e2eAPI(e2eOpts{Media: meA, Shim: in.Shim}, 1)
+	// a run that fails before the observation exists is still handed to the
+	// model (as an empty description), so the suite always has a case file
+	c23Remember(in, "(MediaIn [] (Eng false [] false [] [] []) [])")
+	meO, meA := c23Engine(in.RTX, in.FEC, 0), c23EngineSwap(in.RTX, in.FEC, in.PTShift, in.PTSwap)
+	tap := &c23Tap{seen: map[uint32]map[uint8]int{}}
+	irO, irA := &interceptor.Registry{}, &interceptor.Registry{}
+	if in.AnswererSends {
+		irO.Add(tap)
+	} else {
+		irA.Add(tap)
+	}
+	apiO, closeO := e2eAPI(e2eOpts{Media: meO, Shim: in.Shim, Interceptors: irO}, 0)
+	apiA, closeA := e2eAPI(e2eOpts{Media: meA, Shim: in.Shim, Interceptors: irA}, 1)
 	off, err := e2eNewPC(apiO, 0)
 	if err != nil {
 		panic(err)
@@ -748,6 +819,14 @@ func c23MediaRun(in c23Media) (V, Verdict) {
 			}
 			// warm-up: until the first packet has been read from the remote track
 			var rt *c23RecvTrack
+			name := strings.ToLower(strings.SplitN(c23Codecs[t.Codec].Cap.MimeType, "/", 2)[1])
+			wantPT := -1
+			if a := adesc[mid]; a != nil {
+				if pt, ok := a.pts[name]; ok {
+					wantPT = pt
+				}
+			}
+			warmDeadline := time.After(12 * time.Second)
 			for k := 0; ; k++ {
 				if err := write(true); err != nil {
 					v := Fail("writertp-failed", err.Error())
@@ -760,13 +839,19 @@ func c23MediaRun(in c23Media) (V, Verdict) {
 				if rt != nil && rt.count() > 0 {
 					break
 				}
+				giveUp := false
 				select {
 				case <-ctx.Done():
-					v := Fail("no-packet-reached-the-announced-ssrc",
-						fmt.Sprintf("track %d: %d warm-up packets written, no TrackRemote with SSRC %d delivered one", i, k+1, an.ssrc))
+					giveUp = true
+				case <-warmDeadline:
+					giveUp = true
+				case <-time.After(15 * time.Millisecond):
+				}
+				if giveUp {
+					sig, what := tap.diagnose(an.ssrc, wantPT)
+					v := Fail(sig, fmt.Sprintf("track %d: %d warm-up packets written over 12 s, none read from a TrackRemote with SSRC %d: %s", i, k+1, an.ssrc, what))
 					fails[i] = &v
 					return
-				case <-time.After(15 * time.Millisecond):
 				}
 			}
 			smu.Lock()
@@ -813,16 +898,16 @@ func c23MediaRun(in c23Media) (V, Verdict) {
 		}(i)
 	}
 	wg.Wait()
+	for _, f := range fails {
+		if f != nil {
+			return VS("send"), *f
+		}
+	}
 	if in.Data {
 		select {
 		case <-dcOpen:
 		case <-ctx.Done():
-			return VS("dc"), Fail("bundled-data-channel-did-not-open", "")
-		}
-	}
-	for _, f := range fails {
-		if f != nil {
-			return VS("send"), *f
+			return VS("dc"), Fail("bundled-data-channel-did-not-open", "media flowed, the data channel of the same bundle did not open")
 		}
 	}
 
@@ -998,6 +1083,9 @@ func c23MediaRun(in c23Media) (V, Verdict) {
 		if in.PTShift != 0 {
 			cls += "/pt-shift"
 		}
+		if in.PTSwap {
+			cls += "/pt-swap"
+		}
 		if in.Shim != nil {
 			cls += "/shim"
 		}
@@ -1026,6 +1114,10 @@ func c23MediaMatrix() []c23Media {
 		{Tracks: []c23MTrack{t("opus", 16, 10), t("vp8", 16, 11)}, RTX: true, Data: true},
 		{Tracks: []c23MTrack{t("opus", 10, 12), t("h264", 10, 13)}, AnswererSends: true, PTShift: 7, Data: true},
 		{Tracks: []c23MTrack{t("opus", 12, 14)}, AnswererSends: true, PTShift: 7},
+		// the answerer's registered table names another codec under the offered payload type
+		{Tracks: []c23MTrack{t("vp8", 10, 16)}, PTSwap: true, RTX: true},
+		{Tracks: []c23MTrack{t("h264", 10, 17)}, PTSwap: true, AnswererSends: true},
+		{Tracks: []c23MTrack{t("vp8", 10, 18), t("opus", 8, 19)}, PTSwap: true, AnswererSends: true, RTX: true, Data: true},
 		// witness of the known finding: an id with a space (outside the msid grammar)
 		{Tracks: []c23MTrack{{Codec: "vp8", StreamID: "my stream", TrackID: "cam", N: 6, Seed: 15}}, RTX: true},
 	}
@@ -1035,6 +1127,8 @@ func c23GenMedia(r *Rand, i int, shim bool) c23Media {
 	m := c23Media{RTX: r.Bool(), FEC: r.Chance(1, 4), Data: r.Chance(1, 3), AnswererSends: r.Bool(), Nonce: i + 1}
 	if r.Chance(1, 3) {
 		m.PTShift = 7
+	} else if r.Chance(1, 3) {
+		m.PTSwap = true
 	}
 	kinds := [][]string{{"opus"}, {"vp8"}, {"vp9"}, {"h264"}, {"av1"}, {"opus", "vp8"}, {"opus", "h264"}, {"opus", "av1"}, {"vp9", "opus"}}
 	for _, c := range Pick(r, kinds) {
